@@ -144,8 +144,8 @@ func recvNamed(f *ssa.Function) *types.Named {
 }
 
 func checkC17(p *Prog, r *Report) {
-	r.Explain("STRTOTAL: every index, slice, division and type assertion in every String/Extension/TagName/Name method of a library type and in the library functions it calls is an obligation for the E3 bounds prover, with the receiver ranging over its whole type (negative values of signed types included) and no credit for recover frames; slices of a name string by an offset table are discharged by IDXTBL (table non-decreasing, last entry within the string, index+1 proved in range). STRFOLD: the stringer of every integer-based type is constant-folded (loop-free decision tree over immutable tables: comparisons, table/map/string indexing, returns) on every declared constant and on the boundary values of the type; a fold that ends in a panic is a violation with the value as witness. DOCNAME: where the type's doc comment lists N: \"Name\" rows the folded name of N equals the documented one. RT: FromString(String(v)) == v for every declared image type and IdentifyNamespace(String(ns)) == ns for every declared XMP namespace.")
-	r.Trusted("map reads never panic", "fmt.Sprintf with a constant verb-free format returns the format", "strings.ToLower on ASCII")
+	r.Explain("STRTOTAL: every index, slice, division and type assertion in every String/Extension/TagName/Name method of a library type and in the library functions it calls is an obligation for the E3 bounds prover, with the receiver ranging over its whole type (negative values of signed types included) and no credit for recover frames; slices of a name string by an offset table are discharged by IDXTBL (table non-decreasing, last entry within the string, index+1 proved in range). NILF: a call through a function value in these functions is dominated by its nil test or goes through a gap-free package-level function table. STRFOLD: the stringer of every integer-based type is constant-folded (loop-free decision tree over immutable tables: comparisons, table/map/string indexing, returns) on every declared constant and on the boundary values of the type; a fold that ends in a panic is a violation with the value as witness. DOCNAME: where the type's doc comment lists N: \"Name\" rows the folded name of N equals the documented one. RT: FromString(String(v)) == v for every declared image type and IdentifyNamespace(String(ns)) == ns for every declared XMP namespace.")
+	r.Trusted("map reads never panic", "fmt.Sprintf with a constant verb-free format returns the format", "strings.ToLower on ASCII", "strings/bytes Index*, LastIndex*: -1 <= r <= len(s)-1 (<= len(s) for substring searches)")
 	ms := strMethods(p)
 	r.Extra("stringer_methods", len(ms))
 	if len(ms) < 30 {
@@ -164,6 +164,7 @@ func checkC17(p *Prog, r *Report) {
 		bceCrossRef(p, r, fs)
 	}
 	ruleTA(p, r, fs, emptyCont)
+	ruleNILF(p, r, fs) // a lookup through a table of functions must not meet an unset entry
 	r.Floor("STRTOTAL", 20)
 
 	fd := &folder{p: p}
